@@ -81,6 +81,7 @@ class RoundTrip:
         self.G = G
         self.M = peg.Matcher(G)
         self.I = Interp(F, max_depth=400)
+        self.I.concrete_floats = True
         tabs = pratt.extract_pratt_tables(F)
         self.levels = tabs[0][1] if tabs else None
         self.ops = {}
@@ -124,7 +125,15 @@ class RoundTrip:
         m["utils::InputSpan::from_span"] = lambda I_, a: SPAN
         m["<utils::InputSpan as std::default::Default>::default"] = lambda I_, a: SPAN
         # the Pratt parser: pest's loop over the extracted operator table, calling the crate's closures
-        m["lazy_static::lazy::Lazy::get"] = lambda I_, a: Var("PRATT")
+        def lazy_get(I_, a):
+            # lazy_static: the value is whatever the initialiser function returns (the Pratt parser's own table is not
+            # evaluated: the extracted table is used by the modelled loop)
+            if len(a) >= 2:
+                r = I_.apply(a[1], [])
+                if not is_unknown(r):
+                    return r
+            return Var("PRATT")
+        m["lazy_static::lazy::Lazy::get"] = lazy_get
         m["pest::pratt_parser::PrattParser::map_primary"] = lambda I_, a: Var("PRATTMAP", fields={"primary": a[1], "infix": None, "prefix": None})
 
         def with_field(name):
